@@ -1,10 +1,12 @@
 import Driver.StoreDrv
 import Driver.MgrDrv
 import Driver.LeakDrv
+import Driver.AtrestDrv
 
 def main (args : List String) : IO UInt32 := do
   match args with
   | ["store"] => Driver.StoreDrv.main; return 0
   | ["mgr"] => Driver.MgrDrv.main; return 0
   | ["leak"] => Driver.LeakDrv.main; return 0
+  | ["atrest"] => Driver.AtrestDrv.main; return 0
   | _ => IO.eprintln "usage: mdkdrv store < ops"; return 2
